@@ -140,8 +140,11 @@ def property_level(prop, level, why):
 
 class Harness:
     def __init__(self, fn, hid, prop, inputs, functions, body_of, uses, note, idealised, timeout, regions,
-                 kind="proof", overrides=None, sampler=None, backend="z3", uf_axioms=False):
+                 kind="proof", overrides=None, sampler=None, backend="z3", uf_axioms=False, config="py",
+                 native_optional=False):
         self.kind = kind
+        self.native_optional = native_optional
+        self.config = config
         self.uf_axioms = uf_axioms
         self.backend = backend
         self.sampler = sampler
@@ -162,12 +165,15 @@ class Harness:
 
 
 def harness(prop, inputs, functions=(), body_of=(), uses="default", note="", idealised=False, timeout=None,
-            hid=None, regions=(), kind="proof", overrides=None, sampler=None, backend="z3", uf_axioms=False):
+            hid=None, regions=(), kind="proof", overrides=None, sampler=None, backend="z3", uf_axioms=False,
+            config="py", native_optional=False):
     """register a proof harness.
     prop      property id(s) the obligation belongs to (str or tuple)
     inputs    {param: Domain}
     functions qualified names of the repository functions under contract in this harness
     body_of   functions whose *body* is verified here (their own contract is not substituted)
+    config    'py' (default) or 'c': which common module pyModeS selects at import time in the symbolic run
+              (c = the Python translation of c_common.pyx, see vc/pyx2py.py)
     backend   'z3' (default) or 'ivbb': obligations containing transcendental functions are sent
               to the interval branch-and-bound back end first
     sampler   native-only generator sampler(rng, fixed) -> dict of inputs satisfying the harness
@@ -189,7 +195,7 @@ def harness(prop, inputs, functions=(), body_of=(), uses="default", note="", ide
     def deco(fn):
         h = Harness(fn, hid or (fn.__module__.split(".")[-1] + "." + fn.__name__), prop, inputs,
                     list(functions), list(body_of), uses, note, idealised, timeout, list(regions), kind,
-                    overrides, sampler, backend, uf_axioms)
+                    overrides, sampler, backend, uf_axioms, config, native_optional)
         HARNESSES[h.id] = h
         fn.harness = h
         return fn
@@ -301,6 +307,13 @@ def abstract_int(name, lo, hi, *args):
 NATIVE_ABSTRACT = {}
 
 
+def hexdigit_value(code):
+    """value 0..15 of a character code known to be a hex digit, else None (the VC generator answers from the
+    provenance of the code: a character of a hex string)"""
+    ch = chr(code)
+    return int(ch, 16) if ch in "0123456789abcdefABCDEF" else None
+
+
 def new_object(cls, **attrs):
     """instance of `cls` created without running __init__ (no hardware / sockets)"""
     o = object.__new__(cls)
@@ -358,18 +371,18 @@ def _import_real(name):
     if REPO_SRC not in sys.path:
         sys.path.insert(0, REPO_SRC)
     if name == "pyModeS.c_common":
-        import pyModeS  # noqa
-        try:
-            return importlib.import_module(name)
-        except ImportError:
-            import glob
-            cands = glob.glob("/venv/lib/python3*/site-packages/pyModeS/c_common*.so")
-            if not cands:
-                raise
-            spec = importlib.util.spec_from_file_location("pyModeS.c_common", cands[0])
-            m = importlib.util.module_from_spec(spec)
-            spec.loader.exec_module(m)
-            return m
+        # the pre-built extension cannot be rebuilt here (no Cython): natively we execute the same mechanical
+        # Python translation of the current c_common.pyx text that the VC generator analyses
+        import types
+        from vc.pyx2py import pyx_to_python
+        verif = os.path.dirname(os.path.dirname(os.path.abspath(__file__)))
+        if verif not in sys.path:
+            sys.path.insert(0, verif)
+        path = os.path.join(REPO_SRC, "pyModeS", "c_common.pyx")
+        m = types.ModuleType("pyModeS_c_common_translated")
+        m.__file__ = path
+        exec(compile(pyx_to_python(open(path).read()), path, "exec"), m.__dict__)
+        return m
     return importlib.import_module(name)
 
 
